@@ -10,8 +10,6 @@ impl Lang {
 #[verifier::external_body]
 fn to_vec(s: &str) -> (r: Vec<char>) ensures r@ == s@ { s.chars().collect() }
 //@include ../common/store_contract.rs
-// @item rust/core/src/store/mod.rs :: static DEFAULT_LIMIT
-pub const DEFAULT_LIMIT: usize = 10;
 // @item rust/core/src/store/store.rs :: struct Store
 pub struct Store {
     pub next_ix: usize,
